@@ -3,10 +3,23 @@ package hotline
 // The transfer connection of a granted download carries: a flattened-file header whose length fields are
 // consistent, then exactly the data fork from the resume offset to the end, then (unless resuming) the resource
 // fork section - here an empty one, since no resource fork is stored.
-func c08Stream(maxSize int) {
+func c08Stream(maxSize int, withRsrc bool) {
 	vUnroll(300)
-	data := vBytes("data", maxSize)
+	var data []byte
+	if withRsrc {
+		data = vBytesN("data", maxSize) // concrete length: keeps the resource section's offset nearly concrete
+	} else {
+		data = vBytes("data", maxSize)
+	}
 	st := &vStore{names: []string{"/r/docs/target.txt"}, data: [][]byte{data}}
+	hasRsrc := withRsrc
+	rsrc := vBytesN("rsrc", 3)
+	if hasRsrc {
+		st.names = append(st.names, "/r/docs/.rsrc_target.txt")
+		st.data = append(st.data, rsrc)
+	} else {
+		rsrc = nil
+	}
 	ft := &FileTransfer{bytesSentCounter: &WriteCounter{}}
 	k := 0
 	resume := vBool("resume")
@@ -43,15 +56,19 @@ func c08Stream(maxSize int) {
 	vAssertEqBytes("data_fork_from_resume_offset", out[hdr:hdr+rest], data[k:])
 	tail := out[hdr+rest:]
 	if resume {
-		vAssert("resumed_download_ends_after_data", len(tail) == 0)
+		// a resumed download carries no resource fork header; the stored resource bytes still follow the data
+		vAssertEqBytes("resumed_download_then_resource_bytes", tail, rsrc)
 	} else {
-		// an empty resource section: MACR header announcing 0 bytes, nothing after it
-		vAssert("resource_section_is_header_only", len(tail) == 16)
+		// resource section: MACR header announcing the stored size, then exactly those bytes (empty when none stored)
+		vAssert("resource_section_header_present", len(tail) >= 16)
 		vAssert("resource_section_tag", tail[0] == 'M' && tail[1] == 'A' && tail[2] == 'C' && tail[3] == 'R')
-		vAssert("resource_section_size_zero", tail[12] == 0 && tail[13] == 0 && tail[14] == 0 && tail[15] == 0)
+		rs := int(tail[12])<<24 | int(tail[13])<<16 | int(tail[14])<<8 | int(tail[15])
+		vAssert("resource_section_size_is_stored_size", rs == len(rsrc))
+		vAssertEqBytes("resource_fork_bytes", tail[16:], rsrc)
 	}
-	vAssert("bytes_sent_counter", ft.bytesSentCounter.Total == int64(rest))
+	vAssert("bytes_sent_counter", ft.bytesSentCounter.Total == int64(rest+len(rsrc)))
 }
 
-func VH_C08_DownloadStream_sym_quick()    { c08Stream(600) }
-func VH_C08_DownloadStream_sym_thorough() { c08Stream(9000) }
+func VH_C08_DownloadStream_sym_quick()             { c08Stream(600, false) }
+func VH_C08_DownloadStream_sym_thorough()          { c08Stream(9000, false) }
+func VH_C08_DownloadStreamWithResourceFork_sym() { c08Stream(5, true) }
